@@ -127,6 +127,9 @@ var refProgs = []refProg{
 	numBin("a - b", func(a, b float64) refResult { return rn(a - b) }),
 	numBin("a * b", func(a, b float64) refResult { return rn(a * b) }),
 	numBin("a / b", func(a, b float64) refResult { return rn(a / b) }),
+	// the sign of a zero intermediate result is observable through division
+	numBin("1 / (a * b)", func(a, b float64) refResult { return rn(1 / (a * b)) }),
+	numBin("1 / (a - b) + 1 / -a", func(a, b float64) refResult { return rn(1/(a-b) + 1/-a) }),
 	numUn("-a", func(a float64) refResult { return rn(-a) }),
 	numUn("+a", func(a float64) refResult { return rn(a) }),
 	{totalProg{"a % b", ab, nn}, func(v map[string]*val.Val) bool { return int64(rNum(v, "b")) != 0 },
